@@ -198,8 +198,10 @@ func TO2(ctx context.Context, transport Transport, to1d *cose.Sign1[protocol.To1
 	serviceInfoReader, serviceInfoWriter := serviceinfo.NewChunkOutPipe(0)
 	defer func() { _ = serviceInfoWriter.Close() }()
 
-	// Send devmod KVs in initial ServiceInfo
-	go c.Devmod.Write(ctx, c.DeviceModules, sendMTU, serviceInfoWriter)
+	// Send devmod KVs in initial ServiceInfo. Devmod messages must not be split
+	// across messages, so Write gets the space exchangeServiceInfo has for the
+	// KVs of one message (see the MTU arithmetic there).
+	go c.Devmod.Write(ctx, c.DeviceModules, sendMTU-5, serviceInfoWriter)
 
 	// Loop, sending and receiving service info until done
 	if err := exchangeServiceInfo(ctx, transport, proveDeviceNonce, setupDeviceNonce, sendMTU, serviceInfoReader, sess, &c); err != nil {
